@@ -1085,7 +1085,7 @@ class PlanLog:
                 old_names = list(old_rvs.epsilons.parameter_names)
                 new_names = list(model.random_variables.epsilons.parameter_names)
             inv = {'table': [], 'records': records, 'lens': [len(r) for r in records], 'old_names': old_names,
-                   'new_names': new_names, 'log': [], 'raised': False, 'depth': 0, 'created': []}
+                   'new_names': new_names, 'log': [], 'raised': False, 'depth': 0, 'created': [], 'removed': []}
             inv['diff'] = [(o, key_of(inv, d)) for o, d in rvs_diff]
             inv['in_old'] = [k for k, d in enumerate(inv['table']) if (d in old_rvs)]
             prev, me.cur = me.cur, inv
@@ -1161,8 +1161,12 @@ class PlanLog:
 
         def rem(self_, inds):
             inv = me.cur
-            entry = ('remove', rec_index(inv, self_), [i for i, _ in inds]) if top(inv) else None
-            return call(inv, entry, o_rem, self_, inds)
+            t = top(inv)
+            entry = ('remove', rec_index(inv, self_), [i for i, _ in inds]) if t else None
+            res = call(inv, entry, o_rem, self_, inds)
+            if t and not (self_.root.find('block') or self_.root.find('bare_block')):
+                inv['removed'].append((self_.root, [i for i, _ in inds], res.root))   # diagonal branch of remove
+            return res
 
         U.update_random_variable_records = urvr
         U.create_omega_single = single
@@ -1222,7 +1226,9 @@ def plan_terms(invocations):
                        f"{ct.nat(o['size'])} {elems} {ct.nat(o['eta'])} {root})")
         out.append(f"(mkPS {ct.lst([ct.nat(k) for k in inv['in_old']])} {ct.lst([text_term(n) for n in inv['old_names']])} "
                    f"{ct.lst([text_term(n) for n in inv['new_names']])} {ct.lst([ct.nat(n) for n in inv['lens']])} "
-                   f"{dterm} {ct.boolean(inv['raised'])} {ct.lst(acts)} {ct.lst(cre)})")
+                   f"{dterm} {ct.boolean(inv['raised'])} {ct.lst(acts)} {ct.lst(cre)} "
+                   + ct.lst([ct.tup(node_term(b), ct.lst([ct.nat(i) for i in ii]), node_term(a))
+                             for b, ii, a in inv['removed']]) + ")")
     return ct.lst(out)
 
 
